@@ -108,6 +108,7 @@ type TupleVal struct {
 // ---------- state
 
 type Frame struct {
+	ID     int
 	Fn     interface{}
 	Regs   map[interface{}]Value
 	Defers []deferred
@@ -131,10 +132,12 @@ type State struct {
 	Alloc   *Term          // ghost allocation counter (bytes)
 	Globals map[string]Value
 	Depth   int
+	LastOrd *Term // enumeration order of the most recent map range
+	LastPos *Obj
 }
 
 func (s *State) Clone() *State {
-	n := &State{Heap: make(map[*Obj]Value, len(s.Heap)), Alloc: s.Alloc, Depth: s.Depth, Globals: s.Globals}
+	n := &State{Heap: make(map[*Obj]Value, len(s.Heap)), Alloc: s.Alloc, Depth: s.Depth, Globals: s.Globals, LastOrd: s.LastOrd, LastPos: s.LastPos}
 	for k, v := range s.Heap {
 		n.Heap[k] = v
 	}
@@ -279,6 +282,7 @@ func (x *Exec) freshValue(st *State, t types.Type, name string, input bool) Valu
 			c := Fresh(name, SInt)
 			lo, hi := intRange(t)
 			st.Assume(And(Le(IntBig(lo), c), Le(c, IntBig(hi))))
+			constBounds[c] = [2]*big.Int{lo, hi}
 			return c
 		case u.Info()&types.IsFloat != 0:
 			return Fresh(name+".float", SInt)
